@@ -896,7 +896,8 @@ class PauliStringCollection:
         """
         index = self.find(pauli_string)
         if index != -1:
-            self.generators[index] = new_pauli_string.copy()
+            self.classification = None
+            self.generators[index] = self._processing(new_pauli_string.copy())
 
     def contract(self, pauli_string: PauliString, contracted_pauli_string: PauliString) -> None:
         """
